@@ -2,12 +2,329 @@ import ShVerif.Model.C26
 import ShVerif.Proofs.C26
 /-
   C26 — the interpreter runs supported programs like bash.  Property theorems.
+
+  *Partial, and labelled so.*  The theorems are about the control-flow skeleton of the
+  interpreter (`ShVerif.L5.run`, tied to `interp.Runner` by the harness) and the declarative bash
+  semantics `ShVerif.L5.Bash.sem` (validated against bash 5.2 by the harness).  The full statement
+  "for every skeleton program, same stdout and status" is *false* — the counter-examples below are
+  confirmed divergences of mvdan/sh from bash, one per entry of `known-findings.jsonl` — and is
+  kept as `run_eq_bashsem_statement`; `run_eq_bashsem_partial` proves it for the programs accepted by
+  the static predicate `supportedProg`, whose every exclusion is one of those findings (plus ERR
+  traps, which are outside the theorem altogether).
 -/
 namespace ShVerif.C26
 open ShVerif.L5
 
-/-- The full statement (false: see the counter-examples below). -/
+/-- The full statement: the model of the interpreter and `BashSem` give the same stdout and status
+    on every skeleton program, for every fuel.  False (see `run_eq_bashsem_statement_false`). -/
 def run_eq_bashsem_statement : Prop :=
   ∀ (fuel : Nat) (p : Prog), runFile fuel p = Bash.semFile fuel p
+
+/-- **Main theorem.**  For every skeleton program accepted by `supportedProg` (in either mode: `e =
+    false` — no `set -e` anywhere —, or `e = true`) and every fuel, the model of `interp.Runner` and
+    `BashSem` return the same result: both run out of fuel, or both give the same stdout bytes and
+    the same exit status.  Excluded constructs (each an open known finding): `break`/`continue`
+    away from tail positions of loop bodies, in conditions, in functions called from loops, with a
+    count outside `1..depth`; `return` without argument, in a subshell of a function, inside a
+    `for` body; `!` in front of anything but a simple command (or a subshell, without `set -e`);
+    with `set -e`: subshells/command substitutions/pipelines where `-e` is (or may be) ignored,
+    and `{ }`/`if`/`for`/`case`/function bodies ending in `! cmd` or `… && cmd`; pipelines whose
+    last stage is not `true`/`false`/`echo`/`[ ]`; `while`/`until` bodies whose last command may
+    fail; empty `case` clauses after `;&`/`;;&`; `trap … EXIT` in subshells or functions, or with
+    an action other than `echo`/`true`; every `trap … ERR`; function bodies that are not a plain
+    `{ }`. -/
+theorem run_eq_bashsem_partial (e : Bool) (fuel : Nat) (p : Prog) (h : supportedProg e p = true) :
+    runFile fuel p = Bash.semFile fuel p :=
+  run_eq_sem_file e fuel p h
+
+/-- More fuel never changes a result of the model (so "the result of the model" is well defined). -/
+theorem fuel_monotone (n : Nat) (t : Task) (s r : St) (h : run n t s = some r) :
+    run (n+1) t s = some r :=
+  run_mono n t s r h
+
+/-- … also for whole files. -/
+theorem fuel_monotone_file (n : Nat) (p : Prog) (r : Str × Nat) (h : runFile n p = some r) :
+    runFile (n+1) p = some r :=
+  runFile_mono n p r h
+
+/-- On supported programs more fuel never changes a result of `BashSem` either. -/
+theorem fuel_monotone_spec (e : Bool) (n : Nat) (p : Prog) (r : Str × Nat)
+    (hs : supportedProg e p = true) (h : Bash.semFile n p = some r) : Bash.semFile (n+1) p = some r := by
+  rw [← run_eq_bashsem_partial e n p hs] at h
+  rw [← run_eq_bashsem_partial e (n+1) p hs]
+  exact runFile_mono n p r h
+
+/-! ### Traps -/
+
+/-- `trapCallback` never changes the result: `exit` and `lastExit` are what they were. -/
+theorem traps_preserve_result (n : Nat) (body : Prog) (s r : St) (h : run n (.trap body) s = some r) :
+    r.exit = s.exit ∧ r.lastExit = s.lastExit := by
+  cases n with
+  | zero => simp [run] at h
+  | succ m =>
+    rw [run] at h
+    split at h
+    · cases h; exact ⟨rfl, rfl⟩
+    · split at h
+      · cases h; exact ⟨rfl, rfl⟩
+      · split at h
+        · cases h
+        · cases h; exact ⟨rfl, rfl⟩
+
+/-- Whole-file runs: the EXIT trap runs once, after the last statement, with `$?` = the status of
+    the script, and the status returned is the one from before the trap. -/
+theorem traps_exit_once (fuel : Nat) (p : Prog) (out : Str) (st : Nat)
+    (h : runFile fuel p = some (out, st)) :
+    ∃ s s2, foldStmts (fun st => run fuel (.stmt st)) p {} = some s ∧
+      run fuel (.trap s.callbackExit) { s with lastExit := s.exit } = some s2 ∧
+      out = s2.out ∧ st = s.exit.code := by
+  unfold runFile at h
+  cases hr : foldStmts (fun st => run fuel (.stmt st)) p {} with
+  | none => rw [hr] at h; cases h
+  | some s =>
+    rw [hr] at h
+    simp only at h
+    cases hr2 : run fuel (.trap ({ s with lastExit := s.exit } : St).callbackExit) { s with lastExit := s.exit } with
+    | none => rw [hr2] at h; cases h
+    | some s2 =>
+      rw [hr2] at h
+      simp only [Option.some.injEq, Prod.mk.injEq] at h
+      have := (traps_preserve_result fuel _ _ _ hr2).1
+      exact ⟨s, s2, rfl, hr2, h.1.symm, by rw [← h.2, this]⟩
+
+/-- The ERR trap runs under the bash conditions: not for `! cmd`, not for `&&`/`||` lists (their
+    last command has had its own test), not where `noErrExit` is set (conditions, left operands),
+    not when the command succeeded.  (That it runs *once* is false — finding C26-err-trap-nesting —
+    which is why ERR traps are outside `run_eq_bashsem_partial`.) -/
+theorem traps_err_conditions (n : Nat) (neg : Bool) (c : Cmd) (s s1 r : St)
+    (hs : stop s = false) (hc : run n (.cmd c) { s with exit := {} } = some s1)
+    (h : run (n+1) (.stmt (.mk neg c)) s = some r)
+    (hquiet : neg = true ∨ c.isAndOr = true ∨ s1.exit.ok = true ∨ s1.noErrExit = true) :
+    r.out = s1.out := by
+  rw [run] at h
+  simp only [hs, Bool.false_eq_true, ↓reduceIte, hc] at h
+  rcases hquiet with hq | hq | hq | hq
+  · subst hq
+    simp only [↓reduceIte] at h
+    split at h <;> (cases h; rfl)
+  · cases neg with
+    | true => simp only [↓reduceIte] at h; split at h <;> (cases h; rfl)
+    | false => simp only [Bool.false_eq_true, ↓reduceIte, hq] at h; cases h; rfl
+  · cases neg with
+    | true => simp only [↓reduceIte] at h; split at h <;> (cases h; rfl)
+    | false =>
+      simp only [Bool.false_eq_true, ↓reduceIte, hq, Bool.not_true, Bool.false_and] at h
+      split at h <;> (cases h; rfl)
+  · cases neg with
+    | true => simp only [↓reduceIte] at h; split at h <;> (cases h; rfl)
+    | false =>
+      simp only [Bool.false_eq_true, ↓reduceIte, hq, Bool.not_true, Bool.and_false] at h
+      split at h <;> (cases h; rfl)
+
+/-! ### Pipelines -/
+
+/-- `pipefail`: the status of `x | y` is that of `y`, unless `pipefail` is set, `y` succeeded and
+    `x` failed: then it is the status of `x` ("the last command to exit with a non-zero status"). -/
+theorem pipefail_rule (n : Nat) (x y : Stmt) (s r : St) (hs : stop s = false)
+    (h : run (n+1) (.cmd (.pipe x y)) s = some r) :
+    ∃ r2 s1, run n (.stmt x) (subshellOf s []) = some r2 ∧ run n (.stmt y) s = some s1 ∧
+      r.exit.code = (if s1.pipefail && r2.exit.code != 0 && s1.exit.ok then r2.exit.code
+                     else s1.exit.code) := by
+  rw [run_pipe n x y s hs] at h
+  cases hr : run n (.stmt x) (subshellOf s []) with
+  | none => rw [hr] at h; cases h
+  | some r2 =>
+    rw [hr] at h
+    cases hr2 : run n (.stmt y) s with
+    | none => rw [hr2] at h; cases h
+    | some s1 =>
+      rw [hr2] at h
+      refine ⟨r2, s1, rfl, rfl, ?_⟩
+      simp only at h
+      split at h <;> (cases h; simp_all)
+
+/-! ### Non-vacuity: supported programs exercising the mechanisms -/
+
+/-- `set -e; fn1() { false; echo "b"; }; if fn1; then echo "c"; fi; echo "a"` -/
+def ex_errexit_in_condition : Prog :=
+  (.cons (.mk false (.setE true)) (.cons (.mk false (.fn [102, 110, 49] (.mk false (.block (.cons (.mk false .fls) (.cons (.mk false (.echo [.lit [98]])) .nil)))))) (.cons (.mk false (.ifc (.cons (.mk false (.call [102, 110, 49])) .nil) (.cons (.mk false (.echo [.lit [99]])) .nil) .none)) (.cons (.mk false (.echo [.lit [97]])) .nil))))
+
+/-- `for i in 1 2; do for j in a b; do echo "$i$j"; continue 2; done; echo "m"; done; echo "$?"` -/
+def ex_continue_two_levels : Prog :=
+  (.cons (.mk false (.forc [105] [[49], [50]] (.cons (.mk false (.forc [106] [[97], [98]] (.cons (.mk false (.echo [.var [105], .var [106]])) (.cons (.mk false (.cont (some 2))) .nil)))) (.cons (.mk false (.echo [.lit [109]])) .nil)))) (.cons (.mk false (.echo [.status])) .nil))
+
+/-- `set -o pipefail; exit 3 | exit 4 | true; echo "$?"` -/
+def ex_pipefail_chain : Prog :=
+  (.cons (.mk false (.setPF true)) (.cons (.mk false (.pipe (.mk false (.pipe (.mk false (.exit (some 3))) (.mk false (.exit (some 4))))) (.mk false .tru))) (.cons (.mk false (.echo [.status])) .nil)))
+
+/-- `trap 'echo "t$?"' EXIT; ( exit 3 )` -/
+def ex_exit_trap : Prog :=
+  (.cons (.mk false (.trapExit (.cons (.mk false (.echo [.lit [116], .status])) .nil))) (.cons (.mk false (.subsh (.cons (.mk false (.exit (some 3))) .nil))) .nil))
+
+example : supportedProg true ex_errexit_in_condition = true := by decide +kernel
+example : runFile 30 ex_errexit_in_condition = some ([98, 10, 99, 10, 97, 10], 0) := by decide +kernel
+example : supportedProg false ex_continue_two_levels = true := by decide +kernel
+example : runFile 30 ex_continue_two_levels = some ([49, 97, 10, 50, 97, 10, 48, 10], 0) := by decide +kernel
+example : Bash.semFile 30 ex_pipefail_chain = some ([52, 10], 0) := by decide +kernel
+example : runFile 30 ex_pipefail_chain = some ([52, 10], 0) := by decide +kernel
+example : supportedProg false ex_exit_trap = true := by decide +kernel
+example : runFile 30 ex_exit_trap = some ([116, 51, 10], 3) := by decide +kernel
+
+/-! ### Counter-examples: the divergences that delimit `supportedProg`
+
+  Each `w_*` is the skeleton term of the witness recorded in `known-findings.jsonl` /
+  `corpus/C26-known.txt` (converted from the parsed shell text by the harness); the model (= the
+  interpreter, tie) and `BashSem` (= bash, validated) disagree on it, and `supportedProg` rejects it
+  in both modes. -/
+
+/-- `for i in 1 2; do { break; echo "x"; }; echo "y"; done` -/
+def w_break_nested : Prog :=
+  (.cons (.mk false (.forc [105] [[49], [50]] (.cons (.mk false (.block (.cons (.mk false (.brk none)) (.cons (.mk false (.echo [.lit [120]])) .nil)))) (.cons (.mk false (.echo [.lit [121]])) .nil)))) .nil)
+
+theorem cex_break_nested : runFile 40 w_break_nested ≠ Bash.semFile 40 w_break_nested := by decide +kernel
+example : supportedProg false w_break_nested = false ∧ supportedProg true w_break_nested = false := by decide +kernel
+
+/-- `for i in 1 2; do while break; do echo "x"; done; echo "$i"; done` -/
+def w_break_in_while_condition : Prog :=
+  (.cons (.mk false (.forc [105] [[49], [50]] (.cons (.mk false (.whl false (.cons (.mk false (.brk none)) .nil) (.cons (.mk false (.echo [.lit [120]])) .nil))) (.cons (.mk false (.echo [.var [105]])) .nil)))) .nil)
+
+theorem cex_break_in_while_condition : runFile 40 w_break_in_while_condition ≠ Bash.semFile 40 w_break_in_while_condition := by decide +kernel
+example : supportedProg false w_break_in_while_condition = false ∧ supportedProg true w_break_in_while_condition = false := by decide +kernel
+
+/-- `for i in 1 2; do break 5; done; for j in 1 2; do echo "$j"; done` -/
+def w_break_count : Prog :=
+  (.cons (.mk false (.forc [105] [[49], [50]] (.cons (.mk false (.brk (some 5))) .nil))) (.cons (.mk false (.forc [106] [[49], [50]] (.cons (.mk false (.echo [.var [106]])) .nil))) .nil))
+
+theorem cex_break_count : runFile 40 w_break_count ≠ Bash.semFile 40 w_break_count := by decide +kernel
+example : supportedProg false w_break_count = false ∧ supportedProg true w_break_count = false := by decide +kernel
+
+/-- `for i in 1 2; do echo "$i"; break 0; echo "after"; done; echo "$?"` -/
+def w_break_zero : Prog :=
+  (.cons (.mk false (.forc [105] [[49], [50]] (.cons (.mk false (.echo [.var [105]])) (.cons (.mk false (.brk (some 0))) (.cons (.mk false (.echo [.lit [97, 102, 116, 101, 114]])) .nil))))) (.cons (.mk false (.echo [.status])) .nil))
+
+theorem cex_break_zero : runFile 40 w_break_zero ≠ Bash.semFile 40 w_break_zero := by decide +kernel
+example : supportedProg false w_break_zero = false ∧ supportedProg true w_break_zero = false := by decide +kernel
+
+/-- `fn1() { break; echo "inf"; }; for i in 1 2; do fn1; echo "$i"; done` -/
+def w_break_function : Prog :=
+  (.cons (.mk false (.fn [102, 110, 49] (.mk false (.block (.cons (.mk false (.brk none)) (.cons (.mk false (.echo [.lit [105, 110, 102]])) .nil)))))) (.cons (.mk false (.forc [105] [[49], [50]] (.cons (.mk false (.call [102, 110, 49])) (.cons (.mk false (.echo [.var [105]])) .nil)))) .nil))
+
+theorem cex_break_function : runFile 40 w_break_function ≠ Bash.semFile 40 w_break_function := by decide +kernel
+example : supportedProg false w_break_function = false ∧ supportedProg true w_break_function = false := by decide +kernel
+
+/-- `fn1() { false; return; }; fn1; echo "$?"` -/
+def w_return_status : Prog :=
+  (.cons (.mk false (.fn [102, 110, 49] (.mk false (.block (.cons (.mk false .fls) (.cons (.mk false (.ret none)) .nil)))))) (.cons (.mk false (.call [102, 110, 49])) (.cons (.mk false (.echo [.status])) .nil)))
+
+theorem cex_return_status : runFile 40 w_return_status ≠ Bash.semFile 40 w_return_status := by decide +kernel
+example : supportedProg false w_return_status = false ∧ supportedProg true w_return_status = false := by decide +kernel
+
+/-- `fn1() { ( return 3 ); echo "$?"; }; fn1` -/
+def w_return_subshell : Prog :=
+  (.cons (.mk false (.fn [102, 110, 49] (.mk false (.block (.cons (.mk false (.subsh (.cons (.mk false (.ret (some 3))) .nil))) (.cons (.mk false (.echo [.status])) .nil)))))) (.cons (.mk false (.call [102, 110, 49])) .nil))
+
+theorem cex_return_subshell : runFile 40 w_return_subshell ≠ Bash.semFile 40 w_return_subshell := by decide +kernel
+example : supportedProg false w_return_subshell = false ∧ supportedProg true w_return_subshell = false := by decide +kernel
+
+/-- `fn1() { for i in a b c; do return 1; done; }; fn1; echo "$i"` -/
+def w_for_after_return : Prog :=
+  (.cons (.mk false (.fn [102, 110, 49] (.mk false (.block (.cons (.mk false (.forc [105] [[97], [98], [99]] (.cons (.mk false (.ret (some 1))) .nil))) .nil))))) (.cons (.mk false (.call [102, 110, 49])) (.cons (.mk false (.echo [.var [105]])) .nil)))
+
+theorem cex_for_after_return : runFile 40 w_for_after_return ≠ Bash.semFile 40 w_for_after_return := by decide +kernel
+example : supportedProg false w_for_after_return = false ∧ supportedProg true w_for_after_return = false := by decide +kernel
+
+/-- `set -e; ! { false; echo "b"; }; echo "a"` -/
+def w_negation_errexit : Prog :=
+  (.cons (.mk false (.setE true)) (.cons (.mk true (.block (.cons (.mk false .fls) (.cons (.mk false (.echo [.lit [98]])) .nil)))) (.cons (.mk false (.echo [.lit [97]])) .nil)))
+
+theorem cex_negation_errexit : runFile 40 w_negation_errexit ≠ Bash.semFile 40 w_negation_errexit := by decide +kernel
+example : supportedProg false w_negation_errexit = false ∧ supportedProg true w_negation_errexit = false := by decide +kernel
+
+/-- `! exit 0` -/
+def w_negated_exit : Prog :=
+  (.cons (.mk true (.exit (some 0))) .nil)
+
+theorem cex_negated_exit : runFile 40 w_negated_exit ≠ Bash.semFile 40 w_negated_exit := by decide +kernel
+example : supportedProg false w_negated_exit = false ∧ supportedProg true w_negated_exit = false := by decide +kernel
+
+/-- `set -e; if ( false; echo "x" ); then echo "y"; fi` -/
+def w_subshell_errexit_ignored : Prog :=
+  (.cons (.mk false (.setE true)) (.cons (.mk false (.ifc (.cons (.mk false (.subsh (.cons (.mk false .fls) (.cons (.mk false (.echo [.lit [120]])) .nil)))) .nil) (.cons (.mk false (.echo [.lit [121]])) .nil) .none)) .nil))
+
+theorem cex_subshell_errexit_ignored : runFile 40 w_subshell_errexit_ignored ≠ Bash.semFile 40 w_subshell_errexit_ignored := by decide +kernel
+example : supportedProg false w_subshell_errexit_ignored = false ∧ supportedProg true w_subshell_errexit_ignored = false := by decide +kernel
+
+/-- `set -e; { false && true; }; echo "d"` -/
+def w_compound_errexit : Prog :=
+  (.cons (.mk false (.setE true)) (.cons (.mk false (.block (.cons (.mk false (.and (.mk false .fls) (.mk false .tru))) .nil))) (.cons (.mk false (.echo [.lit [100]])) .nil)))
+
+theorem cex_compound_errexit : runFile 40 w_compound_errexit ≠ Bash.semFile 40 w_compound_errexit := by decide +kernel
+example : supportedProg false w_compound_errexit = false ∧ supportedProg true w_compound_errexit = false := by decide +kernel
+
+/-- `true | x=5; echo "$x"` -/
+def w_pipeline_last_stage : Prog :=
+  (.cons (.mk false (.pipe (.mk false .tru) (.mk false (.assign [120] [.lit [53]])))) (.cons (.mk false (.echo [.var [120]])) .nil))
+
+theorem cex_pipeline_last_stage : runFile 40 w_pipeline_last_stage ≠ Bash.semFile 40 w_pipeline_last_stage := by decide +kernel
+example : supportedProg false w_pipeline_last_stage = false ∧ supportedProg true w_pipeline_last_stage = false := by decide +kernel
+
+/-- `i=; while [ "$i" != aa ]; do i="${i}a"; false; done; echo "$?"` -/
+def w_while_status : Prog :=
+  (.cons (.mk false (.assign [105] [])) (.cons (.mk false (.whl false (.cons (.mk false (.test [105] true [97, 97])) .nil) (.cons (.mk false (.assign [105] [.var [105], .lit [97]])) (.cons (.mk false .fls) .nil)))) (.cons (.mk false (.echo [.status])) .nil)))
+
+theorem cex_while_status : runFile 40 w_while_status ≠ Bash.semFile 40 w_while_status := by decide +kernel
+example : supportedProg false w_while_status = false ∧ supportedProg true w_while_status = false := by decide +kernel
+
+/-- `case k in *) false ;& a) ;; esac; echo "$?"` -/
+def w_case_empty_clause : Prog :=
+  (.cons (.mk false (.case [.lit [107]] (.cons [.star] (.cons (.mk false .fls) .nil) .fall (.cons [.lit [97]] .nil .brk .nil)))) (.cons (.mk false (.echo [.status])) .nil))
+
+theorem cex_case_empty_clause : runFile 40 w_case_empty_clause ≠ Bash.semFile 40 w_case_empty_clause := by decide +kernel
+example : supportedProg false w_case_empty_clause = false ∧ supportedProg true w_case_empty_clause = false := by decide +kernel
+
+/-- `( trap 'echo "bye"' EXIT; true ); echo "x"` -/
+def w_exit_trap_subshell : Prog :=
+  (.cons (.mk false (.subsh (.cons (.mk false (.trapExit (.cons (.mk false (.echo [.lit [98, 121, 101]])) .nil))) (.cons (.mk false .tru) .nil)))) (.cons (.mk false (.echo [.lit [120]])) .nil))
+
+theorem cex_exit_trap_subshell : runFile 40 w_exit_trap_subshell ≠ Bash.semFile 40 w_exit_trap_subshell := by decide +kernel
+example : supportedProg false w_exit_trap_subshell = false ∧ supportedProg true w_exit_trap_subshell = false := by decide +kernel
+
+/-- `trap 'exit 4' EXIT; echo "a"` -/
+def w_trap_exit_status : Prog :=
+  (.cons (.mk false (.trapExit (.cons (.mk false (.exit (some 4))) .nil))) (.cons (.mk false (.echo [.lit [97]])) .nil))
+
+theorem cex_trap_exit_status : runFile 40 w_trap_exit_status ≠ Bash.semFile 40 w_trap_exit_status := by decide +kernel
+example : supportedProg false w_trap_exit_status = false ∧ supportedProg true w_trap_exit_status = false := by decide +kernel
+
+/-- `trap 'echo "e"' ERR; { false; }; echo "d"` -/
+def w_err_trap_nesting : Prog :=
+  (.cons (.mk false (.trapErr (.cons (.mk false (.echo [.lit [101]])) .nil))) (.cons (.mk false (.block (.cons (.mk false .fls) .nil))) (.cons (.mk false (.echo [.lit [100]])) .nil)))
+
+theorem cex_err_trap_nesting : runFile 40 w_err_trap_nesting ≠ Bash.semFile 40 w_err_trap_nesting := by decide +kernel
+example : supportedProg false w_err_trap_nesting = false ∧ supportedProg true w_err_trap_nesting = false := by decide +kernel
+
+/-- `trap 'echo "e"' ERR; fn1() { false; true; }; fn1` -/
+def w_err_trap_function : Prog :=
+  (.cons (.mk false (.trapErr (.cons (.mk false (.echo [.lit [101]])) .nil))) (.cons (.mk false (.fn [102, 110, 49] (.mk false (.block (.cons (.mk false .fls) (.cons (.mk false .tru) .nil)))))) (.cons (.mk false (.call [102, 110, 49])) .nil)))
+
+theorem cex_err_trap_function : runFile 40 w_err_trap_function ≠ Bash.semFile 40 w_err_trap_function := by decide +kernel
+example : supportedProg false w_err_trap_function = false ∧ supportedProg true w_err_trap_function = false := by decide +kernel
+
+/-- `trap 'echo "e"; exit 9' ERR; false; echo "d"` -/
+def w_err_trap_exit : Prog :=
+  (.cons (.mk false (.trapErr (.cons (.mk false (.echo [.lit [101]])) (.cons (.mk false (.exit (some 9))) .nil)))) (.cons (.mk false .fls) (.cons (.mk false (.echo [.lit [100]])) .nil)))
+
+theorem cex_err_trap_exit : runFile 40 w_err_trap_exit ≠ Bash.semFile 40 w_err_trap_exit := by decide +kernel
+example : supportedProg false w_err_trap_exit = false ∧ supportedProg true w_err_trap_exit = false := by decide +kernel
+
+/-- `fn1() { true; } && echo "in"` -/
+def w_funcdecl_list : Prog :=
+  (.cons (.mk false (.fn [102, 110, 49] (.mk false (.and (.mk false (.block (.cons (.mk false .tru) .nil))) (.mk false (.echo [.lit [105, 110]])))))) .nil)
+
+example : supportedProg false w_funcdecl_list = false ∧ supportedProg true w_funcdecl_list = false := by decide +kernel
+
+/-- The full statement is false. -/
+theorem run_eq_bashsem_statement_false : ¬ run_eq_bashsem_statement :=
+  fun h => cex_break_nested (h 40 w_break_nested)
 
 end ShVerif.C26
